@@ -613,7 +613,10 @@ func (x *Exec) applyLemmas(f *Frame, st *State, env *Env, anchor string) {
 		for i, prm := range ld.Params {
 			v, err := x.evalTerm(env, lu.Args[i])
 			if err != nil {
-				x.errorf("%s: lemma %s arg %d: %v", x.unit.Name, lu.Name, i, err)
+				// a guarded lemma whose argument dereferences a nil result (error path): the guard is false there
+				if !(lu.Guard != nil && strings.Contains(err.Error(), "of nil")) {
+					x.errorf("%s: lemma %s arg %d: %v", x.unit.Name, lu.Name, i, err)
+				}
 				ok = false
 				break
 			}
